@@ -52,6 +52,7 @@ ASSUMPTIONS = ['model SFTP server (vf/engines/sftpmodel.py) implements '
                'and SEEK_HOLE/SEEK_DATA',
                'OpenSSH 9.2 sftp client is correct (openssh-sftp family)']
 
+MULTI_OPS = ('mget', 'getdir', 'mcopy', 'mput')
 BLOCK_SIZES = [1, 2, 7, 64, 16384]
 MAX_REQUESTS = [1, 2, 3, 16, 128]
 CAP_BLOCKS = 260
@@ -158,7 +159,8 @@ def run_xfer(case) -> CaseResult:
 
         true_len = fi.get('true_len')
 
-        if true_len is None or true_len >= len(content) or op == 'put':
+        if true_len is None or true_len >= len(content) or \
+                op in ('put', 'mput'):
             true_len = None
 
         files.append({'name': b'f%d' % i, 'content': content,
@@ -218,6 +220,8 @@ def run_xfer(case) -> CaseResult:
                 expect.append(('local', os.path.join(
                     out, f['name'].decode()), f))
         elif op == 'getdir':
+            # the last file sits one directory deeper
+            files[-1]['name'] = b'sub/' + files[-1]['name']
             remote_src(b'd/')
             out = os.path.join(tmp, 'out')
             coro = sftp.get('d', out, recurse=True, **kw)
@@ -225,6 +229,26 @@ def run_xfer(case) -> CaseResult:
             for f in files:
                 expect.append(('local', os.path.join(
                     out, f['name'].decode()), f))
+        elif op == 'mcopy':
+            remote_src(b'd/')
+            model.dirs.add(b'out')
+            coro = sftp.mcopy('d/f*', 'out', **kw)
+
+            for f in files:
+                expect.append(('remote', b'out/' + f['name'], f))
+        elif op == 'mput':
+            src = os.path.join(tmp, 'src')
+            os.mkdir(src)
+            model.dirs.add(b'out')
+
+            for f in files:
+                with open(os.path.join(src, f['name'].decode()), 'wb') as fo:
+                    fo.write(f['content'])
+
+                f['ranges'] = None
+                expect.append(('remote', b'out/' + f['name'], f))
+
+            coro = sftp.mput(os.path.join(src, 'f*'), 'out', **kw)
         else:
             raise HarnessError('unknown op ' + op)
 
@@ -248,7 +272,7 @@ def run_xfer(case) -> CaseResult:
 
         errors = stats['errors'] > 0
         early = any(f['true_len'] is not None for f in files)
-        via_copy_data = op == 'copy' and case['copy_data']
+        via_copy_data = op in ('copy', 'mcopy') and case['copy_data']
 
         if stats['max_held'] >= 2 and stats['reordered']:
             labels.add('out-of-order')
@@ -339,10 +363,26 @@ def run_xfer(case) -> CaseResult:
         shutil.rmtree(tmp, ignore_errors=True)
 
 
-def size_strategy(bs: int, mr: int, cap_bytes: int = CAP_BYTES):
+def cost_unit(eff_bs: int, limits, short: List[int]) -> int:
+    """Lower bound of the bytes moved per request: bounds the number of
+    requests of a case (cost), never its meaning"""
+
+    unit = eff_bs
+
+    if limits:
+        unit = min(unit, limits[0])
+
+    if short and 0 not in short:
+        unit = min(unit, min(short))
+
+    return max(unit, 1)
+
+
+def size_strategy(bs: int, mr: int, cap_bytes: int = CAP_BYTES,
+                  unit: Optional[int] = None):
     bs = bs if bs > 0 else 16384
     mr = mr if mr > 0 else 16
-    cap = min(CAP_BLOCKS * bs, cap_bytes)
+    cap = min(CAP_BLOCKS * (unit or bs), cap_bytes)
     base = [0, 1, 2, 3, bs - 1, bs, bs + 1, 2 * bs - 1, 2 * bs, 2 * bs + 1,
             3 * bs + 1, 5 * bs - 1, bs * mr - 1, bs * mr, bs * mr + 1,
             bs * (mr + 1), bs * (mr + 1) + 1, 2 * bs * mr - 1, 2 * bs * mr,
@@ -351,16 +391,19 @@ def size_strategy(bs: int, mr: int, cap_bytes: int = CAP_BYTES):
     return st.one_of(st.sampled_from(base), st.integers(0, min(cap, 200)))
 
 
-def plan_strategy(nreq_hint: int):
+SHORTS = st.one_of(
+    st.just([0]),
+    st.lists(st.sampled_from([0, 0, 1, 2, 3, 6, 63, 100, 16383]),
+             min_size=1, max_size=5))
+
+
+def plan_strategy(nreq_hint: int, short: List[int]):
     return st.fixed_dictionaries({
         'hold': st.sampled_from([1, 2, 3, 5, 17, 1000, 1000]),
         'order': st.lists(st.integers(0, 200), min_size=1, max_size=6),
         'burst': st.lists(st.sampled_from([1, 1, 2, 3, 5, 128]), min_size=1,
                           max_size=4),
-        'short': st.one_of(
-            st.just([0]),
-            st.lists(st.sampled_from([0, 0, 1, 2, 3, 6, 63, 100, 16383]),
-                     min_size=1, max_size=5)),
+        'short': st.just(short),
         'fail': st.one_of(
             st.just([]), st.just([]),
             st.lists(st.tuples(st.integers(0, max(1, min(nreq_hint, 40))),
@@ -372,8 +415,9 @@ def plan_strategy(nreq_hint: int):
 def xfer_strategy(tier: str):
     @st.composite
     def build(draw):
-        op = draw(st.sampled_from(['get', 'get', 'get', 'put', 'copy', 'copy',
-                                   'mget', 'getdir']))
+        op = draw(st.sampled_from(['get', 'get', 'get', 'put', 'put', 'copy',
+                                   'copy', 'mget', 'getdir', 'mcopy',
+                                   'mput']))
         limits = draw(st.one_of(
             st.none(), st.none(),
             st.tuples(st.sampled_from([1, 2, 5, 7, 64, 100, 16384]),
@@ -383,14 +427,17 @@ def xfer_strategy(tier: str):
         mr = draw(st.sampled_from(MAX_REQUESTS + [-1]))
         eff_bs = bs if bs > 0 else (min(limits) if limits else 16384)
         ranges = draw(st.booleans())
-        copy_data = op == 'copy' and draw(st.booleans())
+        copy_data = op in ('copy', 'mcopy') and draw(st.booleans())
         sparse = draw(st.booleans())
-        nfiles = draw(st.integers(2, 3)) if op in ('mget', 'getdir') else 1
+        nfiles = draw(st.integers(2, 3)) if op in MULTI_OPS else 1
+        short = draw(SHORTS)
+        unit = cost_unit(eff_bs, limits, short)
         files = []
 
         for _ in range(nfiles):
             size = draw(size_strategy(eff_bs, mr if mr > 0 else 128,
-                                      CAP_BYTES if nfiles == 1 else 40000))
+                                      CAP_BYTES if nfiles == 1 else 40000,
+                                      unit))
             fi = {'size': size, 'seed': draw(st.integers(0, 250)),
                   'cuts': None, 'first_data': True, 'true_len': None}
 
@@ -403,7 +450,7 @@ def xfer_strategy(tier: str):
                     min_size=1, max_size=6))))
                 fi['first_data'] = draw(st.booleans())
 
-            if op != 'put' and not copy_data and size and \
+            if op not in ('put', 'mput') and not copy_data and size and \
                     draw(st.integers(0, 5)) == 0:
                 fi['true_len'] = draw(st.one_of(
                     st.integers(0, size - 1),
@@ -413,13 +460,13 @@ def xfer_strategy(tier: str):
             files.append(fi)
 
         nblk = sum(f['size'] for f in files) // eff_bs + 1
-        nreq = nblk * (2 if op == 'copy' else 1)
+        nreq = nblk * (2 if op in ('copy', 'mcopy') else 1)
 
         return {'op': op, 'bs': bs, 'mr': mr, 'sparse': sparse,
                 'version': draw(st.sampled_from([3, 3, 3, 4, 5, 6])),
                 'limits': limits, 'copy_data': copy_data, 'ranges': ranges,
                 'rpr': draw(st.sampled_from([1, 2, 128])),
-                'files': files, 'plan': draw(plan_strategy(nreq))}
+                'files': files, 'plan': draw(plan_strategy(nreq, short))}
 
     return build()
 
@@ -883,8 +930,10 @@ def file_strategy(tier: str):
             bs_eff = bs
 
         mr_eff = mr if mr > 0 else 16
-        cap = min(CAP_BLOCKS * bs_eff // 2, 100000)
-        init = draw(size_strategy(bs_eff, mr_eff, cap))
+        short = draw(SHORTS)
+        unit = cost_unit(bs_eff, limits, short)
+        cap = min(CAP_BLOCKS * unit // 2, 100000)
+        init = draw(size_strategy(bs_eff, mr_eff, cap, unit))
         nreq = 2 * (init // bs_eff + 1)
 
         return {'mode': draw(st.sampled_from(MODES)), 'bs': bs, 'mr': mr,
@@ -893,7 +942,7 @@ def file_strategy(tier: str):
                 'seed': draw(st.integers(0, 250)),
                 'known_shapes': draw(st.integers(0, 11)) == 0,
                 'ops': draw(ops_strategy(bs_eff, mr_eff, cap, max_ops, True)),
-                'plan': draw(plan_strategy(nreq))}
+                'plan': draw(plan_strategy(nreq, short))}
 
     return build()
 
@@ -1117,11 +1166,13 @@ def real_strategy(tier: str):
             mr = draw(st.sampled_from(MAX_REQUESTS + [-1]))
             bs_eff = 64 if bs is None else 16384 if bs == -1 else bs
             mr_eff = mr if mr > 0 else 16
-            cap = min(CAP_BLOCKS * bs_eff // 2, 100000)
+            unit = cost_unit(bs_eff, None, short)
+            cap = min(CAP_BLOCKS * unit // 2, 100000)
 
             return {'op': op, 'version': version, 'short': short,
                     'mode': draw(st.sampled_from(MODES)), 'bs': bs, 'mr': mr,
-                    'init_size': draw(size_strategy(bs_eff, mr_eff, cap)),
+                    'init_size': draw(size_strategy(bs_eff, mr_eff, cap,
+                                                    unit)),
                     'seed': draw(st.integers(0, 250)),
                     'ops': draw(ops_strategy(bs_eff, mr_eff, cap, max_ops,
                                              False))}
@@ -1131,6 +1182,7 @@ def real_strategy(tier: str):
 
         if sparse_file:
             bs = draw(st.sampled_from([512, 4096, 5000, 16384, -1]))
+            short = [v for v in short if v == 0 or v >= 63] or [0]
             fi = {'pages': draw(st.lists(st.booleans(), min_size=1,
                                          max_size=6)),
                   'tail': draw(st.sampled_from([0, 0, 1, 100, 4095])),
@@ -1138,8 +1190,9 @@ def real_strategy(tier: str):
                   'seed': draw(st.integers(0, 250))}
         else:
             bs = draw(st.sampled_from(BLOCK_SIZES + [-1]))
-            fi = {'size': draw(size_strategy(bs, mr if mr > 0 else 128,
-                                             100000)),
+            fi = {'size': draw(size_strategy(
+                bs, mr if mr > 0 else 128, 100000,
+                cost_unit(bs if bs > 0 else 16384, None, short))),
                   'seed': draw(st.integers(0, 250))}
 
         return {'op': op, 'version': version, 'short': short, 'bs': bs,
@@ -1279,15 +1332,16 @@ def openssh_strategy(tier: str):
     def build(draw):
         buffer = draw(st.sampled_from([64, 512, 1000, 4096, 32768]))
         requests = draw(st.sampled_from([1, 2, 3, 16, 64]))
-        cap = min(100 * buffer, 150000)
-        files = draw(st.lists(st.fixed_dictionaries({
-            'dir': st.sampled_from(['put', 'get']),
-            'size': size_strategy(buffer, requests, cap),
-            'seed': st.integers(0, 250)}), min_size=1, max_size=3))
         short = draw(st.one_of(
             st.just([0]),
             st.lists(st.sampled_from([0, 0, 1, 7, 63, 1000]), min_size=1,
                      max_size=4)))
+        unit = cost_unit(buffer, None, short)
+        cap = min(100 * buffer, 150000)
+        files = draw(st.lists(st.fixed_dictionaries({
+            'dir': st.sampled_from(['put', 'get']),
+            'size': size_strategy(buffer, requests, cap, 4 * unit),
+            'seed': st.integers(0, 250)}), min_size=1, max_size=3))
         return {'buffer': buffer, 'requests': requests, 'files': files,
                 'short': short}
 
@@ -1296,9 +1350,10 @@ def openssh_strategy(tier: str):
 
 FAMILIES = [
     Family('model-xfer', run_xfer, strategy=xfer_strategy,
-           budget={'quick': 900, 'thorough': 12000},
+           budget={'quick': 2000, 'thorough': 24000},
            required={'all': ['op-get', 'op-put', 'op-copy', 'op-mget',
-                             'op-getdir', 'out-of-order',
+                             'op-getdir', 'op-mcopy', 'op-mput',
+                             'out-of-order',
                              'short-read-continued', 'error-injected',
                              'early-eof', 'sparse-holes', 'ranges-continued',
                              'copy-data', 'limits-ext',
@@ -1306,7 +1361,7 @@ FAMILIES = [
                              'v3', 'v6']},
            timeout_is_violation=True, case_timeout=120),
     Family('model-file', run_file, strategy=file_strategy,
-           budget={'quick': 700, 'thorough': 10000},
+           budget={'quick': 2000, 'thorough': 24000},
            required={'all': ['read-parallel-path', 'read-single-path',
                              'read_parallel', 'write-parallel-path',
                              'append-write', 'explicit-offset', 'seek',
@@ -1314,7 +1369,7 @@ FAMILIES = [
                              'error-injected', 'write-past-end']},
            timeout_is_violation=True, case_timeout=120),
     Family('real-server', run_real, strategy=real_strategy,
-           budget={'quick': 320, 'thorough': 5000},
+           budget={'quick': 640, 'thorough': 8000},
            required={'all': ['op-get', 'op-put', 'op-copy', 'op-file',
                              'sparse-holes', 'short-read-continued',
                              'v3', 'v4', 'v5', 'v6']},
